@@ -88,6 +88,11 @@ pub fn jwk_value(id: &str) -> Value {
 }
 
 pub fn jwk(id: &str) -> jsonwebtoken::jwk::Jwk {
+    // "jwk:<json>": a literal JWK (hostile issuer inputs); the generator only emits JSON that
+    // deserialises into the typed argument
+    if let Some(lit) = id.strip_prefix("jwk:") {
+        return serde_json::from_str(lit).expect("literal jwk");
+    }
     serde_json::from_value(jwk_value(id)).expect("jwk")
 }
 
